@@ -1,13 +1,17 @@
 ---------------------------- MODULE ParityAlgRec ----------------------------
 (* code -> spec: records taken from real formula objects instantiated on a real Data_K; one TLC state per record.
-   kind = "decl": the transformTR / transformInv attributes of the object  (factor, conj, transpose_axes as a digit string)
-   kind = "cov" : the same for data_K.covariant(name, commader, gender)
+   kind = "decl": the transformTR / transformInv of the object, described by their EFFECT on a probe tensor (factor, conj,
+                  axes permutation as a digit string; the harness writes the table's own notation when the effect is the
+                  same as that of the table's transformation, the observed effect otherwise)
+   kind = "decl1": one such transformation (sym = "TR" | "Inv") attached by a dynamic calculator to its result
+   kind = "cov" : the same for data_K.covariant(name, commader, gender), for the names catalogued formulas consume
+   kind = "usign": a sign measured on a formula class that is not in the catalogue, with the factor it declares itself
    kind = "sign": the sign s in  value(-k) = s * P(value(k))  measured on a symmetric model, P = the conj/transposition
                   part of the declared transformation; classified from floating-point values by the harness *)
 EXTENDS ParityAlg, Json, IOUtils, TLCExt
-VARIABLE i
+VARIABLES i, rec          \* rec = the record itself: read once in the initial predicate, materialised in the state
 Recs == JsonDeserialize(IOEnv.TRACE_FILE).recs
-Rec == Recs[i]
+Rec == rec
 AxesOf(s) == CASE s = "" -> NoAxes [] s = "10" -> <<1, 0>> [] s = "021" -> <<0, 2, 1>> [] s = "102" -> <<1, 0, 2>> [] OTHER -> <<9>>
 T(r) == Tr(r.factor, r.conj, AxesOf(r.axes))
 DeclClauses ==
@@ -15,6 +19,15 @@ DeclClauses ==
      equals_code_model |-> Rec.name \in Formulas => (T(Rec.tr) = Declared(Rec.name).tr /\ T(Rec.inv) = Declared(Rec.name).inv),
      equals_derived |-> Rec.name \in Formulas => (T(Rec.tr) = Expected(Rec.name).tr /\ T(Rec.inv) = Expected(Rec.name).inv),
      involution |-> IsTransform(T(Rec.tr)) /\ IsTransform(T(Rec.inv)) /\ IsInvolution(T(Rec.tr)) /\ IsInvolution(T(Rec.inv)) ]
+Decl1Clauses ==
+   LET d == IF Rec.sym = "TR" THEN Declared(Rec.name).tr ELSE Declared(Rec.name).inv
+       e == IF Rec.sym = "TR" THEN Expected(Rec.name).tr ELSE Expected(Rec.name).inv IN
+   [ known_formula |-> Rec.name \in Formulas,
+     equals_code_model |-> Rec.name \in Formulas => T(Rec.t) = d,
+     equals_derived |-> Rec.name \in Formulas => T(Rec.t) = e,
+     involution |-> IsTransform(T(Rec.t)) /\ IsInvolution(T(Rec.t)) ]
+USignClauses ==
+   [ sign_equals_own_declaration |-> Rec.sign = Rec.declared /\ Rec.sign \in {1, -1} ]
 CovClauses ==
    LET d == DeclOf(Cov(Rec.name, Rec.commader, Rec.gender)) IN
    [ equals_code_model |-> T(Rec.tr) = d.tr /\ T(Rec.inv) = d.inv ]
@@ -25,9 +38,11 @@ SignClauses ==
      sign_equals_declared |-> Rec.name \in Formulas =>
          Rec.sign = (IF Rec.sym = "TR" THEN Declared(Rec.name).tr.factor ELSE Declared(Rec.name).inv.factor) ]
 Clauses == CASE Rec.kind = "decl" -> DeclClauses
+             [] Rec.kind = "decl1" -> Decl1Clauses
+             [] Rec.kind = "usign" -> USignClauses
              [] Rec.kind = "cov" -> CovClauses
              [] Rec.kind = "sign" -> SignClauses
-Report == \A n \in DOMAIN Clauses : Clauses[n] \/ PrintT(<<"BAD", i, n>>)
-RecInit == i \in 1..Len(Recs)
-RecSpec == RecInit /\ [][UNCHANGED i]_i
+Report == LET C == Clauses IN \A n \in DOMAIN C : C[n] \/ PrintT(<<"BAD", i, n>>)      \* the table is evaluated once
+RecInit == \E rs \in {Recs} : i \in 1..Len(rs) /\ rec = rs[i]
+RecSpec == RecInit /\ [][UNCHANGED <<i, rec>>]_<<i, rec>>
 =============================================================================
